@@ -4,6 +4,8 @@ import (
 	"encoding/json"
 	"fmt"
 	"os"
+	"runtime"
+	"runtime/debug"
 	"time"
 
 	"github.com/magisterquis/curlrevshell/verifx/bworld"
@@ -132,4 +134,53 @@ func init() {
 		}
 		return 0
 	}
+}
+
+// seqRun runs one history in this process (used by the sequential payload
+// enumerations) and returns the violations of property prop.  A violation is
+// only believed if the same history shows it on five fresh worlds in a row;
+// otherwise the check is broken (harness nondeterminism), not alarmed.
+func seqRun(p *bworld.Profile, hist []bworld.Event, prop string) []bworld.Viol {
+	once := func() []bworld.Viol {
+		w, _, err := bworld.RunHistory(p, hist, nil, nil)
+		if nil != err {
+			ev.Broken("sequential run of %s: %s", bworld.HistString(hist), err)
+		}
+		w.Close()
+		var out []bworld.Viol
+		for _, v := range w.Viols {
+			if v.Prop == prop {
+				out = append(out, v)
+			}
+		}
+		return out
+	}
+	vs := once()
+	if 0 == len(vs) {
+		return nil
+	}
+	for i := 0; i < 5; i++ {
+		again := once()
+		for _, v := range vs {
+			found := false
+			for _, a := range again {
+				if a.Sig == v.Sig {
+					found = true
+				}
+			}
+			if !found {
+				ev.Broken("harness nondeterminism: violation %s of history %s (profile %s) did not reproduce on replay %d", v.Sig, bworld.HistString(hist), p.Name, i+1)
+			}
+		}
+	}
+	return vs
+}
+
+// gcQuiet disables the collector for the duration of a sequential
+// enumeration (collections are run explicitly between executions), so that no
+// goroutine of a world is ever parked inside the runtime on the collector's
+// behalf while the harness looks for quiescence.
+func gcQuiet() func() {
+	old := debug.SetGCPercent(-1)
+	return func() { debug.SetGCPercent(old); runtime.GC() }
 }
